@@ -244,8 +244,8 @@ pub struct CaseStats {
     pub associated: u64,
 }
 
-pub fn check_case(ctx: &Ctx, n: u64, pv: &ProjView, config_text: &str, shared: bool) -> Option<(Vec<Violation>, CaseStats)> {
-    let replay = json!({"property":"C14","kind":"project","config":config_text,"shared":shared,"view":crate::props::maps::view_json(pv)});
+pub fn check_case(ctx: &Ctx, n: u64, pv: &ProjView, config_text: &str, shared: bool, earlier_config: Option<&str>) -> Option<(Vec<Violation>, CaseStats)> {
+    let replay = json!({"property":"C14","kind":"project","config":config_text,"shared":shared,"earlier_config":earlier_config,"view":crate::props::maps::view_json(pv)});
     let mut out: Vec<(String, String)> = vec![];
     let mut st = CaseStats { files: 0, declared: 0, defaults: 0, associated: 0 };
     let dir = cli::scratch_dir(&ctx.out, "c14", n);
@@ -254,6 +254,16 @@ pub fn check_case(ctx: &Ctx, n: u64, pv: &ProjView, config_text: &str, shared: b
         return None;
     }
     let cwd = dir.join(&pv.root);
+    // a working copy with a history: `generate` already ran here under other naming / export options; then only the
+    // configuration file changed (the sources keep their time stamps). The declarations must be those of the
+    // configuration in force, like the loader's modules.
+    if let Some(earlier) = earlier_config {
+        if let Some((cfg_path, _)) = pv.files.iter().find(|(p, _)| p.contains("graphql.config")) {
+            let _ = std::fs::write(dir.join(cfg_path), earlier);
+            let _ = cli::run_cli(&ctx.cli, &cwd, &["generate", "--output-format", "json"], Duration::from_secs(120));
+            let _ = std::fs::write(dir.join(cfg_path), config_text);
+        }
+    }
     let r = cli::run_cli(&ctx.cli, &cwd, &["generate", "--output-format", "json"], Duration::from_secs(120));
     if r.status != Some(0) {
         cli::cleanup(&dir);
@@ -371,7 +381,21 @@ pub fn run(ctx: &Ctx, rep: &mut Report) {
         let cfg_text = proj.files.iter().find(|(p, _)| p.contains("graphql.config")).map(|(_, t)| t.clone()).unwrap_or_default();
         rep.trace_case(|| json!({"property":"C14","kind":"project","config":cfg_text,"view":crate::props::maps::view_json(&pv)}));
         rep.eval();
-        let Some((vs, st)) = check_case(ctx, case, &pv, &cfg_text, case % 2 == 1) else {
+        // every third project has a history under other options
+        let earlier: Option<String> = if case % 3 == 2 {
+            let mut e = proj.config.clone();
+            e.default_export = Some(!e.default_export.unwrap_or(true));
+            e.capitalize = Some(!e.capitalize.unwrap_or(true));
+            e.query_suffix = Some(if e.query_suffix.as_deref() == Some("Earlier") { "Doc".into() } else { "Earlier".into() });
+            e.mutation_suffix = e.query_suffix.clone();
+            e.subscription_suffix = e.query_suffix.clone();
+            e.fragment_suffix = Some("EarlierFragment".into());
+            rep.count("projects_generated_before_under_other_options");
+            Some(e.render(&["./schema/**/*.graphql".to_string(), "./schema/*.graphqls".to_string()], &proj.doc_globs))
+        } else {
+            None
+        };
+        let Some((vs, st)) = check_case(ctx, case, &pv, &cfg_text, case % 2 == 1, earlier.as_deref()) else {
             rep.count("projects_where_generate_did_not_succeed");
             continue;
         };
@@ -407,7 +431,7 @@ pub fn run(ctx: &Ctx, rep: &mut Report) {
 
 pub fn replay(case: &Value, ctx: &Ctx) -> Vec<Violation> {
     match ProjView::from_json(&case["view"]) {
-        Some(pv) => check_case(ctx, 0, &pv, case["config"].as_str().unwrap_or(""), case["shared"].as_bool().unwrap_or(false)).map(|x| x.0).unwrap_or_default(),
+        Some(pv) => check_case(ctx, 0, &pv, case["config"].as_str().unwrap_or(""), case["shared"].as_bool().unwrap_or(false), case["earlier_config"].as_str()).map(|x| x.0).unwrap_or_default(),
         None => vec![],
     }
 }
